@@ -66,8 +66,42 @@ input_class labels of the defects of the unchanged tree (see C01_findings.md), e
 For duplicate (binned) time values both readings of "each time point" are accepted (one RDM per distinct time VALUE with all
 samples at that value as observations, or one RDM per time INDEX).
 
-NOT covered by this tier: cross-validated methods (crossnobis, poisson_cv: C02) and `unbalanced=True`; float32 data and the
-size of rounding errors (tolerance 1e-9 relative to max(1, |expected|), DESIGN "not decided"); correlation between patterns
+dimension sweeps (`_sweep_domains`; the same oracles on inputs that vary along one more dimension, plus two oracles)
+  C01/values-typed       measurements as int8 .. uint32 / int64 / float32 with values that use the range of the dtype: the spec
+                         works on exactly those values as float64 ("integer or float data change nothing"); single, list with one
+                         dtype per dataset, movie.  float32: tolerance 1e-4 of the scale of the terms (rounding "not decided").
+  C01/invariance-sweeps  metamorphic: the same values in a narrow integer dtype, read-only array, strided view into a larger array,
+                         obs descriptors as tuple / object array / int16-float32 array, other key orders of the obs descriptor
+                         dict (the condition descriptor last, the unique one first, reversed), channels and precision permuted.
+  C01/values-units       the same O(1) numbers in another unit: data x 1e-26 .. 1e+12 (the formulas are homogeneous of degree 2 /
+                         0 / 2 (x precision scale) / 1 with the poisson prior rate in the unit of the data): reported value /
+                         scale^degree = formula on the O(1) numbers to 1e-9, i.e. NO absolute threshold survives; one unit per
+                         dataset of a list; movies; condition labels that differ by 1e-13, one ulp, 1 in 1e12, beyond 2^53, after 40
+                         equal characters stay distinct conditions (values, descriptors: C01/descriptors-units, lists).
+  C01/movie-time-units(-labels)  time axes in units 1e-12 .. 1e+9, integer-typed and tuple time descriptors, key order of the
+                         descriptor dicts, with / without bins.
+  C01/containers(-descriptors)   tuple / object-array / small-dtype obs descriptors x 4 key orders of the descriptor dicts x with /
+                         without condition descriptor; a vector-valued (2-D) extra obs descriptor (never attached with a foreign
+                         value, its presence is not demanded); lists whose datasets differ in container type and key order.
+  C01/values-large       12..64 conditions, up to 40 repetitions, up to 100 channels; lists of 6 datasets; movies of 8..12 time points.
+  C01/calls              oracle C01/calls, protocol on two datasets A, B of the same shape / labels and different content: call(A) =
+                         formula; inputs (measurements incl. dtype, obs / time / dataset descriptors, precision, bins) unchanged;
+                         call(A) again = identical result; call(B) = formula on B; the results held from the calls on A unchanged; the
+                         caller overwrites a held result -> call(A) = formula; the caller overwrites A.measurements in place with B's
+                         -> formula on B.  Single / list / movie.
+  C01/hashseed           oracle C01/hashseed: a batch of cases of the other oracles (str / numeric-str / int / float labels) in new
+                         interpreters started with other PYTHONHASHSEED values; each must hold there (the statement leaves the
+                         ORDER of conditions / RDMs free, so results are not compared across interpreters beyond that).
+defects found by the sweeps, registrations behind `if False:  # pending triage: <class>` (see the report of the sweep):
+  'narrow-int-data,no-descriptor,euclidean'   int8 .. uint32 measurements, descriptor=None, euclidean / mahalanobis without
+                         precision and without remove_mean: squares and products are computed in the narrow dtype and wrap around
+  'vector-valued-extra-obs-descriptor,repetitions'   a 2-D obs descriptor and a condition descriptor with repetitions: TypeError
+                         (unhashable ndarray) in _build_rdms
+
+NOT covered by this tier: cross-validated methods (crossnobis, poisson_cv: C02) and `unbalanced=True`; float16 data, and for
+float32 / float64 the size of rounding errors (tolerance 1e-9 relative to max(1, |expected|) in the unit of the case; float32
+1e-4; DESIGN "not decided"); a data offset that is large against the differences (cancellation in the Gram form); poisson with
+data far below the prior rate (same); correlation between patterns
 whose variance is zero only up to rounding (skipped, P = 1 is checked: NaN); label values other than int / float / str scalars
 (None, bool, tuples, mixed types); non-SPD or non-square precisions; datasets larger than the stated bounds; the PRESENCE of
 extra pattern descriptors for list input (the statement cannot demand it: they may conflict between datasets) and what a
@@ -75,6 +109,7 @@ dataset descriptor that varies over a list becomes beyond "readable per RDM"; th
 engines A and B.
 """
 import itertools
+import json
 import math
 import warnings
 
@@ -109,6 +144,14 @@ NAMES = {
     'numstr': ['10', '9', '100', '1', '09', '2', '11'],
     'float': [0.5, -1.0, 2.25, 0.0, 10.0, -0.25, 3.0],
     'int-unsorted': [10, 9, 100, -3, 7, 8, 0],
+}
+# labels in extreme but legitimate units / of extreme size: distinct values stay distinct conditions
+NAMES_UNITS = {
+    'float-tiny': [1e-13, 2e-13, -1e-13, 0.0, 3e-13, 1.5e-13, -2e-13],
+    'float-close': [1.0, 1.0 + 2.0 ** -52, 1.0 - 2.0 ** -53, 1.0 + 2.0 ** -51, 1.0 - 2.0 ** -52, 1.0 + 2.0 ** -50, 1.0 - 2.0 ** -51],
+    'float-large': [1e12, 1e12 + 1, 1e12 - 1, -1e12, 1e12 + 2, 0.5, 1e12 + 3],
+    'int-huge': [2 ** 53 + 1, 2 ** 53, 2 ** 53 + 2, -2 ** 53 - 1, 7, 2 ** 62, 2 ** 53 + 3],
+    'str-long': ['x' * 40 + 'b', 'x' * 40 + 'a', 'x' * 40, 'x' * 39, 'x' * 41, 'y', 'x' * 40 + 'ab'],
 }
 
 # (method, option) alphabet; options are JSON-able: remove_mean (bool), noise ('spd' | 'diag'), prior [lambda, weight]
@@ -154,9 +197,10 @@ def _same(a, b):
     return bool(a == b)
 
 
-def _same_t(a, b):
+def _same_t(a, b, tunit=1.0):
+    """time labels agree (tunit: the unit of the time axis of the case, 1.0 unless the axis is in extreme units)"""
     a, b = float(_py(a)), float(b)
-    return abs(a - b) <= 1e-12 * max(1.0, abs(b))
+    return abs(a - b) <= 1e-12 * max(tunit, abs(b))
 
 
 def _find(label, seq):
@@ -218,10 +262,10 @@ def spec_value(method, a, b, remove_mean=False, noise=None, prior=(1.0, 0.1)):
     raise ValueError(method)
 
 
-def _eq(got, exp, tol=TOL):
+def _eq(got, exp, tol=TOL, floor=1.0):
     if math.isnan(exp) or math.isnan(got):
         return math.isnan(exp) and math.isnan(got)
-    return abs(got - exp) <= tol * max(1.0, abs(exp))
+    return abs(got - exp) <= tol * max(floor, abs(exp))
 
 
 def _check_names(names, union, what='rows/columns'):
@@ -234,13 +278,15 @@ def _check_names(names, union, what='rows/columns'):
     return None
 
 
-def _cmp_vec(vec, names, distinct, means, method, sopt, tag=''):
-    """literal double loop over pairs of condition labels; a label that the dataset does not contain -> NaN expected"""
+def _cmp_vec(vec, names, distinct, means, method, sopt, tag='', unit=1.0, tol=TOL, floor=1.0):
+    """literal double loop over pairs of condition labels; a label that the dataset does not contain -> NaN expected.
+    unit: the library worked on the same numbers in another unit (see `_unit`): its values are divided by `unit` before
+    they are compared with the formula on the numbers in `means` (which are O(1))."""
     n = len(names)
     k = 0
     for i in range(n):
         for j in range(i + 1, n):
-            got = float(vec[k])
+            got = float(vec[k]) / unit
             k += 1
             ia, ib = _find(names[i], distinct), _find(names[j], distinct)
             if ia < 0 or ib < 0:
@@ -249,9 +295,9 @@ def _cmp_vec(vec, names, distinct, means, method, sopt, tag=''):
                 exp = spec_value(method, means[ia], means[ib], **sopt)
             if exp is None:
                 continue
-            if not _eq(got, exp):
+            if not _eq(got, exp, tol, floor):
                 return (f'{tag}pair ({_py(names[i])!r}, {_py(names[j])!r}): reported {got!r}, '
-                        f'formula on the two condition means gives {exp!r}')
+                        f'formula on the two condition means gives {exp!r}' + (f' (both in units of {unit!r})' if unit != 1.0 else ''))
     return None
 
 
@@ -284,7 +330,84 @@ def _measurements(rs, cond_idx, n_ch, kind):
         return (rs.randint(0, 9, size=(n_cond, n_ch))[cond_idx] + rs.poisson(2.0, size=(n_obs, n_ch))).astype(np.int64)
     if kind == 'signed':
         return 3.0 * rs.randn(n_cond, n_ch)[cond_idx] + rs.randn(n_obs, n_ch)
+    if kind.startswith('typed'):
+        # 'typed:<dtype>' / 'typedpos:<dtype>': integer values that use the range of the dtype (pixel values 0..255, ADC counts
+        # +-32000, ...; at most +-100000), so every dtype holds them exactly
+        dt = np.dtype(kind.split(':')[1])
+        if dt.kind == 'f':
+            lo, hi = -2000, 2000
+        else:
+            lo, hi = max(int(np.iinfo(dt).min), -100000), min(int(np.iinfo(dt).max), 100000)
+        if kind.startswith('typedpos'):
+            lo = 0
+        w = max(1, (hi - lo) // 8)
+        base = rs.randint(lo, hi + 1, size=(n_cond, n_ch))[cond_idx]
+        return np.clip(base + rs.randint(-w, w + 1, size=(n_obs, n_ch)), lo, hi).astype(float)
     raise ValueError(kind)
+
+
+def _prep(raw, case):
+    """(the numbers the spec works on, the array handed to the library).
+    case['dtype']: the library gets the data as that dtype, the spec the exact values of that array as float64.
+    case['scale']: the library gets the same numbers in another unit (raw * scale); the spec keeps the O(1) numbers and the
+    comparison divides the library's values by `_unit` (the formulas are homogeneous)."""
+    X = np.array(raw, copy=True)
+    if case.get('scale'):
+        X = X.astype(float) * float(case['scale'])
+    if case.get('dtype'):
+        X = X.astype(case['dtype'])
+        if not case.get('scale'):
+            raw = X.astype(float)
+    return raw, X
+
+
+def _unit(method, opt, case):
+    """factor by which the method's value changes when the data are multiplied by case['scale'] (and a given precision by
+    case['nscale'], the poisson prior rate by the scale: see `_lib_opt`): degree 2 / 0 / 2 (x nscale) / 1"""
+    s = float(case.get('scale') or 1.0)
+    if method == 'correlation':
+        return 1.0
+    if method == 'poisson':
+        return s
+    if method == 'mahalanobis' and opt.get('noise'):
+        return s * s * float(case.get('nscale') or 1.0)
+    return s * s
+
+
+def _lib_opt(method, opt, case):
+    """options of the library call of a case in another unit: the prior RATE of the poisson method is in the unit of the data"""
+    s = case.get('scale')
+    if s and method == 'poisson':
+        lam, w = opt.get('prior', (1.0, 0.1))
+        return dict(opt, prior=[lam * float(s), w])
+    return opt
+
+
+def _lib_noise(noise, case):
+    if noise is None:
+        return None
+    out = noise * float(case['nscale']) if case.get('nscale') else noise.copy()
+    if case.get('noise_dtype'):
+        out = out.astype(case['noise_dtype'])
+    return out
+
+
+def _tol(case):
+    """float32 data: the library may compute in float32 (DESIGN: the size of rounding errors is not decided); 1e-4 of
+    the scale of the value rejects wrong formulas / means / labels and accepts every float32 evaluation order"""
+    return 1e-4 if case.get('dtype') in ('float32',) else TOL
+
+
+def _energy(method, means, sopt):
+    """scale of the terms that a float32 evaluation of the method adds up (the value is compared relative to it)"""
+    if method == 'correlation':
+        return 1.0
+    if method == 'poisson':
+        lam, w = sopt['prior']
+        top = max((float(np.max(m)) + lam * w) / (1 + w) for m in means)
+        return max(1.0, top * max(1.0, abs(math.log(top))))
+    zero = np.zeros(len(means[0]))
+    return max(1.0, max(spec_value(method, m, zero, **dict(sopt, remove_mean=False)) for m in means))
 
 
 def _noise(rs, n_ch, which):
@@ -299,6 +422,24 @@ def _noise(rs, n_ch, which):
 def _container(values, desc_type):
     if desc_type == 'array':
         return np.array(values)
+    if desc_type == 'tuple':
+        return tuple(values)
+    if desc_type == 'object-array':
+        out = np.empty(len(values), dtype=object)
+        for k, v in enumerate(values):
+            out[k] = v
+        return out
+    if desc_type == 'small-dtype-array':        # int16 / float32 / fixed-width unicode: holds the values exactly
+        out = np.array(values)
+        if out.dtype.kind == 'i':
+            return out.astype(np.int16) if np.all(np.abs(out) < 32000) else out
+        if out.dtype.kind == 'f':
+            return out.astype(np.float32) if np.all(out.astype(np.float32).astype(float) == out) else out
+        return out
+    if desc_type == 'int-array':
+        return np.array([int(v) for v in values], dtype=np.int64)
+    if desc_type == 'int32-array':
+        return np.array([int(v) for v in values], dtype=np.int32)
     return list(values)
 
 
@@ -318,7 +459,15 @@ def _extras(cond_idx, names, oid_base=50, oid_perm=None):
     return stim, rep, oid
 
 
-def _dataset(X, cond_idx, names, desc_type='list', extra=True, descriptors=None, with_cond=True, oid_base=50, oid_perm=None):
+def _pos2d(cond_idx):
+    """a vector-valued obs descriptor that is constant within each condition (e.g. a stimulus position)"""
+    return [[1.5 * c, float(-c)] for c in cond_idx]
+
+
+def _dataset(X, cond_idx, names, desc_type='list', extra=True, descriptors=None, with_cond=True, oid_base=50, oid_perm=None,
+             obs_order=None, extra2d=False):
+    """obs_order: None = cond, stim, rep, oid | 'reversed' | 'oid-first' | 'cond-last' (order of the keys of the obs
+    descriptor dict; 'reversed' also reverses the dict of the dataset descriptors)"""
     from rsatoolbox.data import Dataset
     labels = [names[c] for c in cond_idx]
     obs = {}
@@ -328,7 +477,18 @@ def _dataset(X, cond_idx, names, desc_type='list', extra=True, descriptors=None,
     if extra:
         obs['stim'] = _container(stim, desc_type)
         obs['rep'] = _container(rep, desc_type)
+    if extra2d:
+        obs['pos'] = _pos2d(cond_idx) if desc_type in ('list', 'tuple') else np.array(_pos2d(cond_idx))
     obs['oid'] = _container(oid, desc_type)
+    if obs_order == 'reversed':
+        obs = {k: obs[k] for k in reversed(list(obs))}
+        descriptors = {k: descriptors[k] for k in reversed(list(descriptors))} if descriptors else descriptors
+    elif obs_order == 'oid-first':
+        obs = {k: obs[k] for k in ['oid'] + [q for q in obs if q != 'oid']}
+    elif obs_order == 'cond-last':
+        obs = {k: obs[k] for k in [q for q in obs if q != 'cond'] + [q for q in obs if q == 'cond']}
+    elif obs_order is not None:
+        raise ValueError(obs_order)
     ds = Dataset(X, descriptors=dict(descriptors) if descriptors else None, obs_descriptors=obs)
     return ds, labels, dict(stim=stim, rep=rep, oid=oid)
 
@@ -371,8 +531,10 @@ def _single_case(case):
     raw = _measurements(rs, cond_idx, n_ch, case.get('kind', 'pos'))
     opt = case.get('opt', {})
     noise = _noise(rs, n_ch, opt['noise']) if opt.get('noise') else None
-    ds, labels, ex = _dataset(raw.copy(), cond_idx, names, case.get('desc', 'list'), case.get('extra', True),
-                              descriptors={'subj': 7, 'sess': 'x1'})
+    raw, X = _prep(raw, case)
+    ds, labels, ex = _dataset(X, cond_idx, names, case.get('desc', 'list'), case.get('extra', True),
+                              descriptors={'subj': 7, 'sess': 'x1'}, obs_order=case.get('obs_order'),
+                              extra2d=case.get('extra2d', False))
     return raw, ds, labels, ex, opt, noise
 
 
@@ -384,7 +546,7 @@ def orc_values(case):
     descriptor = case.get('descriptor', 'cond')
     with warnings.catch_warnings():
         warnings.simplefilter('ignore')
-        res = calc_rdm(ds, method=method, descriptor=descriptor, **_kwargs(opt, None if noise is None else noise.copy()))
+        res = calc_rdm(ds, method=method, descriptor=descriptor, **_kwargs(_lib_opt(method, opt, case), _lib_noise(noise, case)))
     key = descriptor if descriptor is not None else 'oid'
     ident = labels if descriptor is not None else ex['oid']
     dis, names, err = _vectors(res, key, 1)
@@ -394,7 +556,9 @@ def orc_values(case):
     err = _check_names(names, distinct)
     if err:
         return err
-    return _cmp_vec(dis[0], names, distinct, means, method, _sopt(opt, noise))
+    tol = _tol(case)
+    floor = _energy(method, means, _sopt(opt, noise)) if tol != TOL else 1.0
+    return _cmp_vec(dis[0], names, distinct, means, method, _sopt(opt, noise), unit=_unit(method, opt, case), tol=tol, floor=floor)
 
 
 @oracle('C01/descriptors')
@@ -416,6 +580,16 @@ def orc_descriptors(case):
     if err:
         return err
     pd = res.pattern_descriptors
+    if case.get('extra2d') and 'pos' in pd:
+        # a vector-valued descriptor: never attached with the value of another condition (its presence is not demanded)
+        pos = _pos2d(list(case['labels']))
+        got = list(pd['pos'])
+        if len(got) != len(names):
+            return f"pattern descriptor 'pos' has {len(got)} entries for {len(names)} conditions"
+        for i, nm in enumerate(names):
+            own = [pos[t] for t, lab in enumerate(ident) if _same(lab, nm)]
+            if not any(np.shape(got[i]) == np.shape(o) and np.array_equal(np.asarray(got[i], dtype=float), np.asarray(o)) for o in own):
+                return f"condition {_py(nm)!r} carries pos={np.asarray(got[i]).tolist()!r}, its observations have pos in {own}"
     obs = dict(cond=labels, **ex)
     for dname, dvals in obs.items():
         if dname == key or (dname in ('stim', 'rep') and not case.get('extra', True)):
@@ -493,7 +667,7 @@ def orc_invariance(case):
     kw = _kwargs(opt, noise)
     base, _, _ = _dataset(raw.copy(), cond_idx, names, 'list', True)
     perm = list(range(len(cond_idx)))
-    X2, idx2, desc2, extra2, aslist = raw.copy(), cond_idx, 'list', True, False
+    X2, idx2, desc2, extra2, aslist, obs_order2, kw2 = raw.copy(), cond_idx, 'list', True, False, None, kw
     if var == 'permute-rows':
         perm = [int(p) for p in rs.permutation(len(cond_idx))]
         X2 = raw[perm].copy()
@@ -512,13 +686,30 @@ def orc_invariance(case):
         extra2 = False
     elif var == 'one-element-list':
         aslist = True
+    elif var == 'readonly-data':
+        X2.setflags(write=False)
+    elif var == 'strided-view':
+        big = np.full((2 * raw.shape[0], 3 * raw.shape[1] + 1), -77, dtype=raw.dtype)
+        big[1::2, 1::3] = raw
+        X2 = big[1::2, 1::3]
+    elif var in ('tuple-descriptors', 'object-array-descriptors', 'small-dtype-array-descriptors'):
+        desc2 = var[:-len('-descriptors')]
+    elif var in ('reversed-descriptor-dict', 'cond-last-descriptor-dict'):
+        obs_order2 = var.split('-')[0] if var.startswith('reversed') else 'cond-last'
+    elif var == 'small-int-data':
+        X2 = raw.astype(kind.split(':')[1])            # kind 'typed:<dtype>': the same values in the narrow dtype
+    elif var == 'permute-channels':
+        pc = [int(q) for q in rs.permutation(n_ch)]
+        X2 = raw[:, pc].copy()
+        if noise is not None:
+            kw2 = dict(kw, noise=noise[np.ix_(pc, pc)].copy())
     else:
         raise ValueError(var)
-    other, _, _ = _dataset(X2, idx2, names, desc2, extra2)
+    other, _, _ = _dataset(X2, idx2, names, desc2, extra2, obs_order=obs_order2)
     with warnings.catch_warnings():
         warnings.simplefilter('ignore')
         r1 = calc_rdm(base, method=method, descriptor='cond', **kw)
-        r2 = calc_rdm([other] if aslist else other, method=method, descriptor='cond', **kw)
+        r2 = calc_rdm([other] if aslist else other, method=method, descriptor='cond', **kw2)
     m1, n1 = _label_map(r1, 'cond')
     m2, n2 = _label_map(r2, 'cond')
     err = _check_names(n2, [_py(n) for n in n1])
@@ -534,6 +725,12 @@ def orc_invariance(case):
 # =====================================================================================================================
 # C01/list, C01/list-descriptors, C01/list-no-descriptor
 # =====================================================================================================================
+def _ds_case(case, spec):
+    """the unit / dtype keys of one dataset of a list case (a dataset's own entry overrides the one of the case)"""
+    return dict(scale=spec.get('scale', case.get('scale')), dtype=spec.get('dtype', case.get('dtype')),
+                nscale=case.get('nscale'))
+
+
 def _list_case(case, with_cond=True):
     """datasets of a list case: case['datasets'] = [{'labels': [...], 'P': optional}], shared names"""
     rs = np.random.RandomState(case['seed'])
@@ -547,9 +744,10 @@ def _list_case(case, with_cond=True):
         desc = {'subj': 11 + 2 * i, 'sess': 'x1'}
         if case.get('ds_descriptors') == 'none':
             desc = None
-        ds, labels, ex = _dataset(raw.copy(), spec['labels'], names, case.get('desc', 'list'), case.get('extra', False),
+        raw, X = _prep(raw, _ds_case(case, spec))
+        ds, labels, ex = _dataset(X, spec['labels'], names, spec.get('desc', case.get('desc', 'list')), case.get('extra', False),
                                   descriptors=desc, with_cond=with_cond, oid_base=spec.get('oid_base', 50),
-                                  oid_perm=spec.get('oid_perm'))
+                                  oid_perm=spec.get('oid_perm'), obs_order=spec.get('obs_order'))
         raws.append(raw)
         dss.append(ds)
         labs.append(labels)
@@ -559,10 +757,10 @@ def _list_case(case, with_cond=True):
     if nz in ('spd', 'diag'):
         shared = _noise(rs, case['P'], nz)
         noises = [shared] * len(dss)
-        arg = shared
+        arg = _lib_noise(shared, case) if case.get('nscale') else shared
     elif nz in ('per-dataset', 'per-dataset-tuple', 'per-dataset-3d'):
         noises = [_noise(rs, spec.get('P', case['P']), 'spd') for spec in case['datasets']]
-        arg = [n.copy() for n in noises]
+        arg = [_lib_noise(n, case) for n in noises]
         if nz == 'per-dataset-tuple':
             arg = tuple(arg)
         elif nz == 'per-dataset-3d':
@@ -595,7 +793,7 @@ def orc_list(case):
     arg = tuple(dss) if case.get('container') == 'tuple' else list(dss)
     with warnings.catch_warnings():
         warnings.simplefilter('ignore')
-        res = calc_rdm(arg, method=method, descriptor='cond', **_kwargs(opt, narg))
+        res = calc_rdm(arg, method=method, descriptor='cond', **_kwargs(_lib_opt(method, opt, case), narg))
     dis, names, err = _vectors(res, 'cond', len(dss))
     if err:
         return err
@@ -612,7 +810,11 @@ def orc_list(case):
         return err
     order = _rdm_of_dataset(res, len(dss))
     for i, (distinct, means) in enumerate(per_ds):
-        err = _cmp_vec(dis[order[i]], names, distinct, means, method, _sopt(opt, noises[i]), tag=f'dataset {i}: ')
+        dcase = _ds_case(case, case['datasets'][i])
+        tol = _tol(dcase)
+        err = _cmp_vec(dis[order[i]], names, distinct, means, method, _sopt(opt, noises[i]), tag=f'dataset {i}: ',
+                       unit=_unit(method, opt, dcase), tol=tol,
+                       floor=_energy(method, means, _sopt(opt, noises[i])) if tol != TOL else 1.0)
         if err:
             return err
     return None
@@ -662,7 +864,7 @@ def orc_list_nodesc(case):
             del ds.obs_descriptors['oid']
     with warnings.catch_warnings():
         warnings.simplefilter('ignore')
-        res = calc_rdm(list(dss), method=method, descriptor=None, **_kwargs(opt, narg))
+        res = calc_rdm(list(dss), method=method, descriptor=None, **_kwargs(_lib_opt(method, opt, case), narg))
     n_obs = raws[0].shape[0]
     dis = np.asarray(res.dissimilarities)
     if dis.shape != (len(dss), n_obs * (n_obs - 1) // 2):
@@ -680,7 +882,11 @@ def orc_list_nodesc(case):
         err = _check_names(names, distinct)
         if err:
             return f'dataset {i}: {err}'
-        err = _cmp_vec(dis[order[i]], names, distinct, means, method, _sopt(opt, noises[i]), tag=f'dataset {i}: observation ')
+        dcase = _ds_case(case, case['datasets'][i])
+        tol = _tol(dcase)
+        err = _cmp_vec(dis[order[i]], names, distinct, means, method, _sopt(opt, noises[i]), tag=f'dataset {i}: observation ',
+                       unit=_unit(method, opt, dcase), tol=tol,
+                       floor=_energy(method, means, _sopt(opt, noises[i])) if tol != TOL else 1.0)
         if err:
             return err
     return None
@@ -747,17 +953,21 @@ def _movie_case(case):
             obs['cond'] = _container(labels, case.get('desc', 'list'))
         tvals = _container(times, case.get('tdesc', 'array'))
         tdesc = {'time': tvals} if tkey == 'time' else {'time': np.arange(len(times)), tkey: tvals}
-        ds = TemporalDataset(raw.copy(), descriptors={'subj': 11 + 2 * i}, obs_descriptors=obs, time_descriptors=tdesc)
+        if case.get('tdict_order') == 'reversed':
+            obs = {k: obs[k] for k in reversed(list(obs))}
+            tdesc = {k: tdesc[k] for k in reversed(list(tdesc))}
+        raw, X = _prep(raw, case)
+        ds = TemporalDataset(X, descriptors={'subj': 11 + 2 * i}, obs_descriptors=obs, time_descriptors=tdesc)
         raws.append(raw)
         dss.append(ds)
         idents.append(labels if case.get('descriptor', 'cond') is not None else oid)
     nz = opt.get('noise')
     if nz in ('spd', 'diag'):
         shared = _noise(rs, n_ch, nz)
-        noises, narg = [shared] * len(dss), shared.copy()
+        noises, narg = [shared] * len(dss), _lib_noise(shared, case)
     elif nz == 'per-dataset':
         noises = [_noise(rs, n_ch, 'spd') for _ in dss]
-        narg = [n.copy() for n in noises]
+        narg = [_lib_noise(n, case) for n in noises]
     else:
         noises, narg = [None] * len(dss), None
     bins = case.get('bins')
@@ -784,7 +994,7 @@ def _movie_call(case, dss, opt, narg, barg, tkey):
         return calc_rdm_movie(arg, method=case['method'], descriptor=case.get('descriptor', 'cond'), **kw)
 
 
-def _frame_assignment(res, frames_ds, tkey, multi):
+def _frame_assignment(res, frames_ds, tkey, multi, tunit=1.0):
     """frames_ds: [(dataset index, time key, distinct, means)] in dataset-major first-appearance order.
     Returns (row of each frame, None) through the returned labels, or (None, why the labels do not describe the RDMs)."""
     n = len(frames_ds)
@@ -799,7 +1009,7 @@ def _frame_assignment(res, frames_ds, tkey, multi):
         return None, f"rdm descriptor 'subj' does not label the {n} RDMs (is {None if sl is None else list(sl)})"
     rows = []
     for (i, t, _, _) in frames_ds:
-        hits = [r for r in range(n) if _same_t(tl[r], t) and (not multi or _same(sl[r], 11 + 2 * i))]
+        hits = [r for r in range(n) if _same_t(tl[r], t, tunit) and (not multi or _same(sl[r], 11 + 2 * i))]
         if len(hits) != 1:
             return None, (f'{len(hits)} RDMs are labelled {tkey}={t!r}' + (f', subj={11 + 2 * i}' if multi else '') +
                           f' (labels {[_py(x) for x in tl]})')
@@ -809,7 +1019,7 @@ def _frame_assignment(res, frames_ds, tkey, multi):
 
 def _movie_check(case, merge):
     raws, dss, idents, opt, noises, narg, bins, barg, tkey = _movie_case(case)
-    res = _movie_call(case, dss, opt, narg, barg, tkey)
+    res = _movie_call(case, dss, _lib_opt(case['method'], opt, case), narg, barg, tkey)
     method = case['method']
     key = 'cond' if case.get('descriptor', 'cond') is not None else 'oid'
     frames_ds = []
@@ -824,7 +1034,7 @@ def _movie_check(case, merge):
     if err:
         return err
     multi = case.get('n_ds', 0) > 1
-    rows, why = _frame_assignment(res, frames_ds, tkey, multi)
+    rows, why = _frame_assignment(res, frames_ds, tkey, multi, float(case.get('tunit', 1.0)))
     if case['check'] == 'labels':
         if why:
             return why
@@ -845,8 +1055,10 @@ def _movie_check(case, merge):
         err = _check_names(names, distinct)
         if err:
             return err
+        tol = _tol(case)
         err = _cmp_vec(dis[rows[f]], names, distinct, means, method, _sopt(opt, noises[i]),
-                       tag=(f'dataset {i}, ' if len(dss) > 1 else '') + f'time {t!r}: ')
+                       tag=(f'dataset {i}, ' if len(dss) > 1 else '') + f'time {t!r}: ', unit=_unit(method, opt, case), tol=tol,
+                       floor=_energy(method, means, _sopt(opt, noises[i])) if tol != TOL else 1.0)
         if err:
             return err
     return None
@@ -988,6 +1200,271 @@ def _sequence_movie(case):
                 tag=f'time {t!r}: ')
             if err:
                 return tag + err + hint
+    return None
+
+
+# =====================================================================================================================
+# C01/calls: what one call may do to another one, to the inputs and to results the caller holds
+# =====================================================================================================================
+def _snapshot(res):
+    def cp(x):
+        return np.array(x, copy=True) if isinstance(x, np.ndarray) else _py(x)
+    return dict(dis=np.array(res.dissimilarities, dtype=float, copy=True),
+                pd={k: [cp(x) for x in v] for k, v in res.pattern_descriptors.items()},
+                rd={k: [cp(x) for x in v] for k, v in res.rdm_descriptors.items()},
+                measure=str(res.dissimilarity_measure))
+
+
+def _seq_equal(a, b):
+    if len(a) != len(b):
+        return False
+    for x, y in zip(a, b):
+        x, y = _py(x), _py(y)
+        if isinstance(x, np.ndarray) or isinstance(y, np.ndarray):
+            if not (np.shape(x) == np.shape(y) and np.array_equal(np.asarray(x), np.asarray(y))):
+                return False
+            continue
+        if isinstance(x, float) and isinstance(y, float) and x != x and y != y:
+            continue
+        if isinstance(x, str) != isinstance(y, str) or not bool(x == y):
+            return False
+    return True
+
+
+def _snap_diff(res, snap):
+    """how a result object differs from the snapshot taken of it (or of an identical call), None if it does not"""
+    dis = np.asarray(res.dissimilarities, dtype=float)
+    if dis.shape != snap['dis'].shape:
+        return f"dissimilarities have shape {dis.shape}, were {snap['dis'].shape}"
+    if not np.array_equal(dis, snap['dis'], equal_nan=True):
+        k = [int(q) for q in np.argwhere(~((dis == snap['dis']) | (np.isnan(dis) & np.isnan(snap['dis']))))[0]]
+        return f"dissimilarity {k} is {dis[tuple(k)]!r}, was {snap['dis'][tuple(k)]!r}"
+    for attr, old in (('pattern_descriptors', snap['pd']), ('rdm_descriptors', snap['rd'])):
+        now = getattr(res, attr)
+        if sorted(now.keys()) != sorted(old.keys()):
+            return f'{attr} have keys {sorted(now.keys())}, had {sorted(old.keys())}'
+        for k in old:
+            if not _seq_equal(list(now[k]), old[k]):
+                return f'{attr}[{k!r}] is {[_py(x) for x in now[k]]}, was {old[k]}'
+    if str(res.dissimilarity_measure) != snap['measure']:
+        return f"dissimilarity_measure is {res.dissimilarity_measure!r}, was {snap['measure']!r}"
+    return None
+
+
+def _inputs_snapshot(dss, others):
+    snap = []
+    for ds in dss:
+        d = dict(m=np.array(ds.measurements, copy=True), dtype=ds.measurements.dtype,
+                 obs={k: [_py(x) for x in v] for k, v in ds.obs_descriptors.items()},
+                 desc={k: _py(v) for k, v in ds.descriptors.items()})
+        if hasattr(ds, 'time_descriptors'):
+            d['time'] = {k: [_py(x) for x in v] for k, v in ds.time_descriptors.items()}
+        snap.append(d)
+    return snap, [None if o is None else np.array(o, copy=True) for o in others]
+
+
+def _inputs_diff(dss, others, snap):
+    snaps, osnap = snap
+    for i, (ds, old) in enumerate(zip(dss, snaps)):
+        m = ds.measurements
+        if not isinstance(m, np.ndarray) or m.shape != old['m'].shape or m.dtype != old['dtype'] or not np.array_equal(m, old['m']):
+            return f'the measurements of dataset {i} were changed by the call'
+        pairs = [('obs_descriptors', ds.obs_descriptors, old['obs'])]
+        if 'time' in old:
+            pairs.append(('time_descriptors', ds.time_descriptors, old['time']))
+        for attr, now, was in pairs:
+            if list(now.keys()) != list(was.keys()):
+                return f'{attr} of dataset {i} have keys {list(now.keys())}, had {list(was.keys())}'
+            for k in was:
+                if not _seq_equal(list(now[k]), was[k]):
+                    return f'{attr}[{k!r}] of dataset {i} is {[_py(x) for x in now[k]]}, was {was[k]}'
+        if list(ds.descriptors.keys()) != list(old['desc'].keys()) or \
+                not _seq_equal([ds.descriptors[k] for k in old['desc']], list(old['desc'].values())):
+            return f"descriptors of dataset {i} are {ds.descriptors}, were {old['desc']}"
+    for j, (o, was) in enumerate(zip(others, osnap)):
+        if o is not None and not (np.shape(o) == was.shape and np.array_equal(np.asarray(o), was)):
+            return f'argument object {j} (precision / bins) was changed by the call'
+    return None
+
+
+@oracle('C01/calls')
+def orc_calls(case):
+    """Two data sets A and B of the same shape, labels and descriptors but different content.  Clauses, in this order:
+    first call on A = formula; inputs unchanged; the same call again = identical result; call on B = formula on B (nothing
+    of A is reused); the results held from the calls on A are unchanged; the caller overwrites a held result -> the next call
+    on A = formula; the caller overwrites the measurements of the object A with those of B -> the next call = formula on B."""
+    from rsatoolbox.rdm import calc_rdm
+    form = case['form']
+    method, opt = case['method'], case.get('opt', {})
+    if form == 'movie':
+        return _calls_movie(case)
+    rs = np.random.RandomState(case['seed'])
+    names, n_ch, kind = case['names'], case['P'], case.get('kind', 'pos')
+    descriptor = case.get('descriptor', 'cond')
+    label_seqs = [case['labels']] if form == 'single' else [case['labels'], case['labels'][::-1], case['labels']]
+    sets = []
+    for which in 'AB':
+        raws, dss, idents = [], [], []
+        for i, cond_idx in enumerate(label_seqs):
+            raw, X = _prep(_measurements(rs, cond_idx, n_ch, kind), case)
+            ds, labels, ex = _dataset(X, cond_idx, names, case.get('desc', 'list'), True, descriptors={'subj': 11 + 2 * i})
+            raws.append(raw)
+            dss.append(ds)
+            idents.append(labels if descriptor is not None else ex['oid'])
+        sets.append((raws, dss, idents))
+    nz = opt.get('noise')
+    if nz == 'per-dataset':
+        noises = [_noise(rs, n_ch, 'spd') for _ in label_seqs]
+        narg = [n.copy() for n in noises]
+        others = list(narg)
+    elif nz:
+        shared = _noise(rs, n_ch, nz)
+        noises, narg = [shared] * len(label_seqs), shared.copy()
+        others = [narg]
+    else:
+        noises, narg, others = [None] * len(label_seqs), None, []
+    key = descriptor if descriptor is not None else 'oid'
+
+    def call(dss):
+        with warnings.catch_warnings():
+            warnings.simplefilter('ignore')
+            return calc_rdm(dss[0] if form == 'single' else dss, method=method, descriptor=descriptor, **_kwargs(opt, narg))
+
+    def values(res, raws, idents):
+        dis, names_r, err = _vectors(res, key, len(raws))
+        if err:
+            return err
+        order = _rdm_of_dataset(res, len(raws)) if form == 'list' else [0]
+        for i, raw in enumerate(raws):
+            distinct, means = spec_means([raw[t] for t in range(raw.shape[0])], idents[i])
+            err = _check_names(names_r, distinct) or _cmp_vec(dis[order[i]], names_r, distinct, means, method, _sopt(opt, noises[i]),
+                                                              tag=(f'dataset {i}: ' if form == 'list' else ''))
+            if err:
+                return err
+        return None
+
+    return _calls_protocol(sets, others, call, values)
+
+
+def _calls_protocol(sets, others, call, values):
+    (raws_a, dss_a, id_a), (raws_b, dss_b, id_b) = sets
+    snap_in = _inputs_snapshot(dss_a, others)
+    r1 = call(dss_a)
+    err = values(r1, raws_a, id_a)
+    if err:
+        return 'first call: ' + err
+    err = _inputs_diff(dss_a, others, snap_in)
+    if err:
+        return 'inputs after the call: ' + err
+    s1 = _snapshot(r1)
+    r2 = call(dss_a)
+    err = _snap_diff(r2, s1)
+    if err:
+        return 'the same call a second time gives another result: ' + err
+    r3 = call(dss_b)
+    err = values(r3, raws_b, id_b)
+    if err:
+        return 'call on a second dataset of the same shape and labels after a call on the first: ' + err
+    for nm, r in (('first', r1), ('second', r2)):
+        err = _snap_diff(r, s1)
+        if err:
+            return f'the result of the {nm} call, held by the caller, changed when the library was called again: ' + err
+    # the caller owns what it got: it may overwrite it
+    r1.dissimilarities[...] = -7.0
+    for v in r1.pattern_descriptors.values():
+        if isinstance(v, list) and len(v) > 1:
+            v.reverse()
+        elif isinstance(v, np.ndarray) and v.ndim == 1 and len(v) > 1:
+            v[...] = v[::-1].copy()
+    r4 = call(dss_a)
+    err = values(r4, raws_a, id_a) or _inputs_diff(dss_a, others, snap_in)
+    if err:
+        return 'call after the caller has overwritten the result of an earlier call: ' + err
+    err = _snap_diff(r2, s1)
+    if err:
+        return 'the result of the second call changed when the caller overwrote the result of the first: ' + err
+    # the caller owns the dataset: new content in the same object
+    for ds, ds_b in zip(dss_a, dss_b):
+        ds.measurements[...] = ds_b.measurements
+    r5 = call(dss_a)
+    err = values(r5, raws_b, id_b)
+    if err:
+        return 'call after the caller has overwritten the measurements of the same dataset object: ' + err
+    return None
+
+
+def _movie_values(res, raw, ident, case, method, opt, noise, bins, tkey, key):
+    frames = spec_frames(raw, ident, case['times'], bins)
+    dis, names, err = _vectors(res, key, len(frames))
+    if err:
+        return err
+    rows, why = _frame_assignment(res, [(0, t, d, m) for (t, d, m) in frames], tkey, False, float(case.get('tunit', 1.0)))
+    if rows is None:
+        return why
+    for f, (t, distinct, means) in enumerate(frames):
+        err = _check_names(names, distinct) or _cmp_vec(dis[rows[f]], names, distinct, means, method, _sopt(opt, noise),
+                                                        tag=f'time {t!r}: ')
+        if err:
+            return err
+    return None
+
+
+def _calls_movie(case):
+    method, opt = case['method'], case.get('opt', {})
+    mc = dict(case, n_ds=0, check='values')
+    ra, da, ia, _, noises, narg, bins, barg, tkey = _movie_case(mc)
+    rb, db, ib, _, _, _, _, _, _ = _movie_case(dict(mc, seed=case['seed'] + 1000))
+    key = 'cond' if case.get('descriptor', 'cond') is not None else 'oid'
+    others = ([narg] if narg is not None else []) + (list(barg) if barg is not None else [])
+
+    def call(dss):
+        return _movie_call(mc, dss, opt, narg, barg, tkey)
+
+    def values(res, raws, idents):
+        return _movie_values(res, raws[0], idents[0], case, method, opt, noises[0], bins, tkey, key)
+
+    return _calls_protocol([(ra, da, ia), (rb, db, ib)], others, call, values)
+
+
+# =====================================================================================================================
+# C01/hashseed: the property in a new interpreter with another PYTHONHASHSEED
+# =====================================================================================================================
+_CHILD = r"""
+import json, sys, warnings
+warnings.simplefilter('ignore')
+import contracts.C01_c  # noqa: registers the oracles
+from vf.rt.harness import ORACLES
+out = []
+for name, case in json.load(sys.stdin):
+    try:
+        r = ORACLES[name](case)
+    except Exception as e:
+        r = 'exception %s: %s' % (type(e).__name__, e)
+    out.append(r)
+print('C01-CHILD-RESULT ' + json.dumps(out))
+"""
+
+
+@oracle('C01/hashseed')
+def orc_hashseed(case):
+    """runs the oracles of case['batch'] = [[oracle name, case], ...] in a new interpreter started with
+    PYTHONHASHSEED = case['hashseed'] (same library, same sys.path); every one of them must hold there too"""
+    import os
+    import subprocess
+    import sys
+    env = dict(os.environ)
+    env['PYTHONHASHSEED'] = str(case['hashseed'])
+    env['PYTHONPATH'] = os.pathsep.join(q for q in sys.path if q)
+    env['PYTHONDONTWRITEBYTECODE'] = '1'
+    proc = subprocess.run([sys.executable, '-c', _CHILD], input=json.dumps(case['batch']), capture_output=True, text=True,
+                          env=env, timeout=600)
+    line = [ln for ln in proc.stdout.splitlines() if ln.startswith('C01-CHILD-RESULT ')]
+    if proc.returncode != 0 or not line:
+        return f'interpreter with PYTHONHASHSEED={case["hashseed"]} failed (exit {proc.returncode}): {proc.stderr.strip()[-400:]}'
+    results = json.loads(line[-1][len('C01-CHILD-RESULT '):])
+    for (name, sub), r in zip(case['batch'], results):
+        if r is not None:
+            return f'with PYTHONHASHSEED={case["hashseed"]}: {name} on {json.dumps(sub)[:300]}: {r}'
     return None
 
 
@@ -1360,4 +1837,411 @@ def tier_c(run, thorough):
                     bd.check(orc_movie_labels, case, K_MOVIE_LIST_TD, function='calc_rdm_movie')
     bd.done()
     bds.append(bd)
+    bds.extend(_sweep_domains(run, thorough))
     return bds
+
+
+# =====================================================================================================================
+# dimension sweeps (typed data, units, containers, dict orders, sizes, call sequences, hash seed)
+# =====================================================================================================================
+OB_VALUES = 'C01/calc_rdm/oracle/value-per-label-pair-is-formula-on-condition-means'
+OB_DESC = 'C01/calc_rdm/oracle/descriptors-on-the-right-rdm-and-condition'
+OB_INV = 'C01/calc_rdm/oracle/values-depend-only-on-the-multiset-of-observation-label-pairs'
+OB_LIST = 'C01/calc_rdm[list]/oracle/rdm-i-is-formula-on-dataset-i-with-the-same-options'
+OB_LIST_ND = 'C01/calc_rdm[list,no-descriptor]/oracle/rdm-i-is-formula-on-observations-of-dataset-i'
+OB_MOVIE = 'C01/calc_rdm_movie/oracle/movie-is-stack-of-per-time-point-rdms'
+OB_MOVIE_LABELS = 'C01/calc_rdm_movie/oracle/time-labels-describe-the-rdms'
+OB_MOVIE_LIST = 'C01/calc_rdm_movie[list]/oracle/each-movie-with-the-same-options'
+OB_CALLS = 'C01/calc_rdm/oracle/calls-do-not-influence-each-other-nor-inputs-nor-held-results'
+OB_HASH = 'C01/calc_rdm/oracle/holds-in-a-new-interpreter-with-another-hash-seed'
+
+# integer dtypes in which the squares / products of values of their own range do not fit
+NARROW = ('int8', 'uint8', 'int16', 'uint16', 'int32', 'uint32')
+K_NARROW_OVERFLOW = 'narrow-int-data,no-descriptor,euclidean'
+K_VECTOR_DESC = 'vector-valued-extra-obs-descriptor,repetitions'
+
+
+def _overflows(dt, method, opt, descriptor):
+    """the class of the defect K_NARROW_OVERFLOW: integer arithmetic on the raw measurements in their own narrow dtype"""
+    return (descriptor is None and dt in NARROW and not opt.get('remove_mean')
+            and (method == 'euclidean' or (method == 'mahalanobis' and not opt.get('noise'))))
+
+
+def _sweep_domains(run, thorough):
+    bds = []
+    scheme_names = list(NAMES)
+
+    # ---- typed data -------------------------------------------------------------------------------------------------
+    dtypes = ('int8', 'uint8', 'int16', 'uint16', 'int32', 'uint32', 'int64', 'float32') if thorough else ('uint8', 'int16', 'int32', 'float32')
+    n_seed = 8 if thorough else 2
+    bd = Bounded(run, 'C01/values-typed', OB_VALUES,
+                 'measurements of dtype %s with values that use the range of the dtype (at most +-100000; float32: integers up to '
+                 '2000 and generic positive values rounded to float32; tolerance for float32 1e-4 of the scale of the terms) x %d '
+                 'seeds x 11 method/option combinations x with / without condition descriptor; single dataset, lists with one '
+                 'dtype per dataset, movies' % (list(dtypes), n_seed), function='calc_rdm')
+    pending_overflow = []
+    for seed in range(n_seed):
+        rs = np.random.RandomState(5000 + seed)
+        seq = _random_labels(rs, 2 + seed % 4, 3)
+        n_ch = (3, 5, 1, 8)[seed % 4]
+        for dt in dtypes:
+            for g, (method, opt) in enumerate(GRID):
+                for descriptor in ('cond', None):
+                    kinds_t = [('typedpos:' if method == 'poisson' else 'typed:') + dt]
+                    if dt == 'float32':
+                        kinds_t.append('pos')
+                    for kind in kinds_t:
+                        case = dict(seed=seed, labels=seq, names=NAMES[scheme_names[(seed + g) % 5]], P=n_ch, kind=kind, dtype=dt,
+                                    method=method, opt=opt, desc=('list', 'array')[g % 2], descriptor=descriptor, extra=True)
+                        if _overflows(dt, method, opt, descriptor):
+                            pending_overflow.append(case)
+                            continue
+                        bd.check(orc_values, case, 'typed-data,' + dt + (',no-descriptor' if descriptor is None else ''),
+                                 function='calc_rdm_' + method)
+        # lists: one dtype per dataset
+        specs = [dict(labels=_random_labels(rs, 3, 2), dtype=dtypes[(seed + d) % len(dtypes)]) for d in range(3)]
+        specs[1]['dtype'] = 'float64'
+        for method, opt in (('euclidean', {}), ('euclidean', {'remove_mean': True}), ('correlation', {}), ('mahalanobis', {'noise': 'spd'}),
+                            ('poisson', {}), ('mahalanobis', {'noise': 'per-dataset'})):
+            bd.check(orc_list, dict(seed=seed, datasets=specs, names=NAMES['str'], P=4,
+                                    kind='typedpos:int8', method=method, opt=opt),       # 0..127: every dtype of the list holds them
+                     'typed-data,list,one-dtype-per-dataset', function='calc_rdm')
+        # movies
+        for dt in dtypes[:4]:
+            for method, opt in (('euclidean', {}), ('correlation', {}), ('mahalanobis', {'noise': 'spd'}), ('poisson', {})):
+                bd.check(orc_movie, dict(seed=seed, labels=[1, 0, 2, 0, 1], names=NAMES['str'], P=3,
+                                         kind=('typedpos:' if method == 'poisson' else 'typed:') + dt, dtype=dt, times=[0.0, 2.0, 1.0, 3.0],
+                                         tdesc='array', method=method, opt=opt, descriptor='cond',
+                                         bins=[[0.0, 1.0], [2.0, 3.0]] if seed % 2 else None, bins_type='array'),
+                         'typed-data,movie,' + dt, function='calc_rdm_movie')
+    if False:  # pending triage: narrow-int-data,no-descriptor,euclidean
+        for case in pending_overflow:
+            bd.check(orc_values, case, K_NARROW_OVERFLOW, function='calc_rdm_euclidean')
+    bd.done()
+    bds.append(bd)
+
+    # typed data as a metamorphic relation + memory layouts / containers / dict orders of the SAME data
+    variants = ('small-int-data', 'readonly-data', 'strided-view', 'tuple-descriptors', 'object-array-descriptors',
+                'small-dtype-array-descriptors', 'reversed-descriptor-dict', 'cond-last-descriptor-dict', 'permute-channels')
+    n_seed = 12 if thorough else 3
+    bd = Bounded(run, 'C01/invariance-sweeps', OB_INV,
+                 '%d seeds x 9 variants %s (the same values as int8/int16/uint8 instead of float64, read-only array, strided view '
+                 'into a larger array, obs descriptors as tuple / object array / int16-float32 array, other key orders of the '
+                 'descriptor dicts, channels (and precision) permuted) x 8 method/option combinations; 2..5 conditions, '
+                 'unbalanced, 3..5 channels' % (n_seed, list(variants)), function='calc_rdm')
+    for seed in range(n_seed):
+        rs = np.random.RandomState(2500 + seed)
+        seq = _random_labels(rs, 2 + seed % 4, 3)
+        for var in variants:
+            for g, (method, opt) in enumerate(GRID):
+                if method == 'poisson' and opt.get('remove_mean') or method == 'correlation' and opt.get('remove_mean') \
+                        or (method == 'mahalanobis' and not opt.get('noise') and opt.get('remove_mean')):
+                    continue
+                kind = ('pos', 'count')[seed % 2]
+                if var == 'small-int-data':
+                    kind = ('typedpos:' if method == 'poisson' else 'typed:') + ('int16', 'int8', 'uint8')[seed % 3]
+                bd.check(orc_invariance, dict(seed=seed, labels=seq, names=NAMES[scheme_names[seed % 5]], P=3 + seed % 3, kind=kind,
+                                              method=method, opt=opt, variant=var), var, function='average_dataset_by')
+    bd.done()
+    bds.append(bd)
+
+    # ---- units ------------------------------------------------------------------------------------------------------
+    scales = (1e-26, 1e-18, 1e-12, 1e-9, 1e-6, 1e-3, 1e3, 1e6, 1e9, 1e12, 2.0 ** -40) if thorough else (1e-26, 1e-12, 1e-6, 1e6, 1e12)
+    n_seed = 4 if thorough else 1
+    bd = Bounded(run, 'C01/values-units', OB_VALUES,
+                 'the same O(1) numbers in another unit: data x %s (precision x 1/scale^2 or left O(1); poisson prior rate x scale); '
+                 'the reported value / scale^degree of the method must equal the formula on the O(1) numbers to 1e-9 x %d seeds x 11 '
+                 'method/option combinations x with / without condition descriptor; lists with one unit per dataset; movies; '
+                 'condition labels that differ by 1e-13 / one ulp / 1 in 1e12 / beyond 2^53 / after 40 equal characters'
+                 % (list(scales), n_seed), function='calc_rdm')
+    i = 0
+    for s_ in scales:
+        for seed in range(n_seed):
+            rs = np.random.RandomState(6000 + seed)
+            seq = _random_labels(rs, 3 + seed % 3, 2)
+            for method, opt in GRID:
+                for descriptor in ('cond', None):
+                    for nscale in ((1.0 / (s_ * s_), None) if opt.get('noise') else (None,)):
+                        i += 1
+                        kind = ('pos', 'signed')[i % 2]
+                        if not _kind_ok(method, kind):
+                            kind = 'pos'
+                        bd.check(orc_values, dict(seed=seed, labels=seq, names=NAMES[scheme_names[i % 5]], P=2 + i % 4, kind=kind,
+                                                  scale=s_, nscale=nscale, method=method, opt=opt, desc=('list', 'array')[i % 2],
+                                                  descriptor=descriptor, extra=True),
+                                 'units,data-x-%g' % s_, function='calc_rdm_' + method)
+            # one unit per dataset of a list (no poisson: its prior rate is one number for the whole call)
+            specs = [dict(labels=_random_labels(rs, 3, 2), scale=(s_, 1.0, 1.0 / s_)[d]) for d in range(3)]
+            for method, opt in (('euclidean', {}), ('euclidean', {'remove_mean': True}), ('correlation', {}), ('mahalanobis', {'noise': 'spd'}),
+                                ('mahalanobis', {'noise': 'per-dataset'})):
+                bd.check(orc_list, dict(seed=seed, datasets=specs, names=NAMES['str'], P=4, kind='pos', method=method, opt=opt),
+                         'units,list,one-unit-per-dataset', function='calc_rdm')
+                bd.check(orc_list_nodesc, dict(seed=seed, datasets=[dict(labels=[0, 1, 2, 3], scale=(s_, 1.0, 1.0 / s_)[d]) for d in range(3)],
+                                               names=NAMES['int'], P=4, kind='pos', method=method, opt=opt, desc='array'),
+                         'units,list-no-descriptor,one-unit-per-dataset', function='concat')
+            for method, opt in (('euclidean', {}), ('correlation', {}), ('mahalanobis', {'noise': 'spd'}), ('poisson', {}),
+                                ('poisson', {'prior': [2.0, 0.5]})):
+                bd.check(orc_movie, dict(seed=seed, labels=[1, 0, 2, 0, 1], names=NAMES['str'], P=3, kind='pos', scale=s_,
+                                         nscale=1.0 / (s_ * s_) if opt.get('noise') else None, times=[0.0, 2.0, 1.0], tdesc='array',
+                                         method=method, opt=opt, descriptor='cond', bins=[[0.0, 1.0], [2.0]] if seed % 2 else None,
+                                         bins_type='array'), 'units,movie,data-x-%g' % s_, function='calc_rdm_movie')
+    # labels in extreme units
+    seqs_u = list(_surjective_sequences(5 if thorough else 4, 3))
+    i = 0
+    for sch, nm in NAMES_UNITS.items():
+        for seq in seqs_u:
+            for method, opt in (('euclidean', {}), ('correlation', {}), ('mahalanobis', {'noise': 'spd'}), ('poisson', {})):
+                i += 1
+                if not thorough and i % 2:
+                    continue
+                case = dict(seed=i % 97, labels=seq, names=nm, P=4, kind='pos', method=method, opt=opt,
+                            desc=('list', 'array')[(i // 2) % 2], descriptor='cond', extra=True)
+                bd.check(orc_values, case, 'labels,' + sch, function='get_unique_inverse')
+    for sch, nm in NAMES_UNITS.items():
+        for a1, a2 in (([0, 1, 2], [2, 1]), ([1, 0], [0, 2]), ([2, 0, 1], [1, 0, 2])):
+            for method, opt in (('euclidean', {}), ('mahalanobis', {'noise': 'per-dataset'})):
+                bd.check(orc_list, dict(seed=len(sch), datasets=[dict(labels=a1 + a1[:1]), dict(labels=a2[::-1] + a2[:1])], names=nm,
+                                        P=4, kind='pos', method=method, opt=opt, desc='array'), 'labels,list,' + sch,
+                         function='from_partials')
+    bd.done()
+    bds.append(bd)
+
+    bd = Bounded(run, 'C01/descriptors-units', OB_DESC,
+                 'ALL label sequences of length <= %d onto <= 3 conditions x 5 label schemes whose values differ by 1e-13 / one ulp '
+                 '/ 1 in 1e12 / beyond 2^53 / after 40 equal characters, with / without condition descriptor'
+                 % (5 if thorough else 4), exhaustive=True, function='_build_rdms')
+    i = 0
+    for sch, nm in NAMES_UNITS.items():
+        for seq in seqs_u:
+            for descriptor in ('cond', None):
+                i += 1
+                method, opt = GRID[i % len(GRID)]
+                bd.check(orc_descriptors, dict(seed=i % 89, labels=seq, names=nm, P=3, kind='pos', method=method, opt=opt,
+                                               desc=('list', 'array')[(i // 2) % 2], descriptor=descriptor, extra=True),
+                         'labels,' + sch, function='_build_rdms')
+    bd.done()
+    bds.append(bd)
+
+    # ---- time axis in other units / of other types -------------------------------------------------------------------
+    movie_grid = [('euclidean', {}), ('correlation', {}), ('mahalanobis', {'noise': 'spd'}), ('poisson', {})]
+    tunits = (1e-12, 1e-9, 1e-3, 1e3, 1e9) if thorough else (1e-9, 1e9)
+    bd = Bounded(run, 'C01/movie-time-units', OB_MOVIE,
+                 'time axes in units %s (ALL orders of 3 time values, with and without two bins), integer-typed (int64 / int32) and '
+                 'tuple time descriptors, other key order of the descriptor dicts' % (list(tunits),), function='calc_rdm_movie')
+    bd_l = Bounded(run, 'C01/movie-time-units-labels', OB_MOVIE_LABELS,
+                   'the cases of C01/movie-time-units: the (binned) time value labels every RDM (to 1e-12 of the unit of the axis), the '
+                   'dataset descriptor sits on every RDM', function='calc_rdm_movie')
+    i = 0
+    for tu in tunits:
+        for perm in itertools.permutations([0.5, -1.0, 2.25]):      # no two bins of two / one of them have the same mean
+            times = [v * tu for v in perm]
+            for bins in (None, [[times[0], times[2]], [times[1]]]):
+                i += 1
+                method, opt = movie_grid[i % 4]
+                case = dict(seed=i % 61, labels=[1, 0, 2, 0, 1], names=NAMES[('str', 'int')[i % 2]], P=3, kind='pos', times=times,
+                            tdesc='array', method=method, opt=opt, descriptor=('cond', None)[(i // 2) % 2], bins=bins, bins_type='array',
+                            tunit=tu, time_descriptor=('time', 'lat')[(i // 3) % 2] if bins is None else 'time')
+                ic = 'time-unit-%g' % tu + (',bins' if bins else '')
+                bd.check(orc_movie, case, ic, function='calc_rdm_movie')
+                bd_l.check(orc_movie_labels, case, ic, function='calc_rdm_movie')
+    for tdesc in ('int-array', 'int32-array', 'tuple'):
+        for perm in itertools.permutations([3.0, 0.0, 7.0]):
+            for bins in (None, [[perm[0], perm[2]], [perm[1]]]):
+                i += 1
+                method, opt = movie_grid[i % 4]
+                case = dict(seed=i % 61, labels=[1, 0, 2, 0, 1], names=NAMES['str'], P=3, kind='pos', times=list(perm), tdesc=tdesc,
+                            method=method, opt=opt, descriptor='cond', bins=bins, bins_type='array',
+                            tdict_order=('reversed', None)[i % 2], time_descriptor=('time', 'lat')[(i // 3) % 2] if bins is None else 'time')
+                if tdesc == 'tuple' and bins is not None:
+                    continue            # list-typed time descriptor with bins: input class K_MOVIE_BINS_TLIST of the movie domain
+                ic = 'time-descriptor-' + tdesc + (',bins' if bins else '')
+                bd.check(orc_movie, case, ic, function='calc_rdm_movie')
+                bd_l.check(orc_movie_labels, case, ic, function='calc_rdm_movie')
+    bd.done()
+    bd_l.done()
+    bds.extend([bd, bd_l])
+
+    # ---- containers, key orders, vector-valued descriptors ------------------------------------------------------------
+    seqs_c = [[1, 0, 2, 0, 1, 1, 3], [0, 1, 2], [2, 0, 1, 0], [0, 0, 1], [1, 2, 0, 3, 4], [3, 3, 0, 2, 1, 0, 3, 2]]
+    if thorough:
+        seqs_c = seqs_c + [q for q in _surjective_sequences(5, 3) if len(q) == 5]
+    bd = Bounded(run, 'C01/containers', OB_VALUES,
+                 '%d label sequences x obs descriptors as tuple / object array / int16-float32-typed array x 4 key orders of the '
+                 'descriptor dicts x 3 naming schemes x method/option rotated over 11 combinations x with / without condition '
+                 'descriptor (values and descriptors); a vector-valued (2-D) extra obs descriptor; lists whose datasets differ in '
+                 'container type and key order' % len(seqs_c), function='calc_rdm')
+    bd_d = Bounded(run, 'C01/containers-descriptors', OB_DESC, 'the cases of C01/containers: descriptors on the right condition / RDM',
+                   function='_build_rdms')
+    pending_vec = []
+    i = 0
+    for seq in seqs_c:
+        for desc in ('tuple', 'object-array', 'small-dtype-array'):
+            for order in (None, 'reversed', 'oid-first', 'cond-last'):
+                for sch in ('int-unsorted', 'str', 'float'):
+                    for descriptor in ('cond', None):
+                        i += 1
+                        method, opt = GRID[i % len(GRID)]
+                        case = dict(seed=i % 97, labels=seq, names=NAMES[sch], P=2 + i % 3, kind=('pos', 'count')[i % 2], method=method,
+                                    opt=opt, desc=desc, obs_order=order, descriptor=descriptor, extra=True)
+                        ic = 'obs-descriptors-as-' + desc + (',dict-order-' + order if order else '')
+                        bd.check(orc_values, case, ic, function='calc_rdm_' + method)
+                        bd_d.check(orc_descriptors, case, ic, function='_build_rdms')
+        for desc in ('list', 'array', 'tuple'):
+            for descriptor in ('cond', None):
+                for g, (method, opt) in enumerate(GRID_NO_RM):
+                    i += 1
+                    case = dict(seed=i % 97, labels=seq, names=NAMES['str'], P=3, kind='pos', method=method, opt=opt, desc=desc,
+                                descriptor=descriptor, extra=True, extra2d=True, obs_order=(None, 'reversed')[g % 2])
+                    if descriptor is not None and len(set(seq)) != len(seq):
+                        pending_vec.append(case)
+                        continue
+                    ic = 'vector-valued-extra-obs-descriptor,' + ('no-repetition' if descriptor else 'no-descriptor')
+                    bd.check(orc_values, case, ic, function='_build_rdms')
+                    bd_d.check(orc_descriptors, case, ic, function='_build_rdms')
+    if False:  # pending triage: vector-valued-extra-obs-descriptor,repetitions
+        for case in pending_vec:
+            bd.check(orc_values, case, K_VECTOR_DESC, function='_build_rdms')
+            bd_d.check(orc_descriptors, case, K_VECTOR_DESC, function='_build_rdms')
+    # lists whose datasets differ in container type and key order
+    for seed in range(8 if thorough else 3):
+        rs = np.random.RandomState(7000 + seed)
+        descs = ('tuple', 'array', 'object-array', 'list', 'small-dtype-array')
+        orders = (None, 'reversed', 'cond-last', 'oid-first')
+        specs = [dict(labels=_random_labels(rs, 3 + seed % 2, 2), desc=descs[(seed + d) % 5], obs_order=orders[(seed + d) % 4])
+                 for d in range(2 + seed % 3)]
+        if seed % 2:
+            specs[-1]['labels'] = [c for c in specs[-1]['labels'] if c != 0] or [1]
+        plain = [dict(labels=[0, 1, 2, 3], desc=('array', 'small-dtype-array')[d % 2], obs_order=orders[(seed + d) % 4]) for d in range(3)]
+        for g, (method, opt) in enumerate(GRID_NO_RM + [('euclidean', {'remove_mean': True}), ('mahalanobis', {'noise': 'per-dataset-tuple'})]):
+            bd.check(orc_list, dict(seed=seed, datasets=specs, names=NAMES[('str', 'int-unsorted', 'float')[seed % 3]], P=3 + seed % 2,
+                                    kind='pos', method=method, opt=opt, extra=True, container=('list', 'tuple')[g % 2]),
+                     'list,containers-and-dict-orders-differ', function='from_partials')
+            bd.check(orc_list_nodesc, dict(seed=seed, datasets=plain, names=NAMES['int'], P=4, kind='pos', method=method, opt=opt,
+                                           extra=True), 'list-no-descriptor,dict-orders-differ', function='concat')
+    bd.done()
+    bd_d.done()
+    bds.extend([bd, bd_d])
+
+    # ---- sizes ------------------------------------------------------------------------------------------------------
+    sizes = [(12, 3, 24), (25, 1, 7)] + ([(40, 3, 64), (64, 2, 5), (3, 40, 100)] if thorough else [])
+    bd = Bounded(run, 'C01/values-large', OB_VALUES,
+                 '(conditions, max repetitions, channels) in %s x 11 method/option combinations x with / without condition descriptor '
+                 '(without: at most 60 observations); lists of 6 datasets; movies of %d time points with %d bins'
+                 % (sizes, 12 if thorough else 8, 4 if thorough else 3), function='calc_rdm')
+    for j, (n_cond, max_rep, n_ch) in enumerate(sizes):
+        rs = np.random.RandomState(8000 + j)
+        seq = _random_labels(rs, n_cond, max_rep)
+        for g, (method, opt) in enumerate(GRID):
+            kind = kinds_ok(method, g + j)
+            for descriptor in ('cond', None):
+                if descriptor is None and len(seq) > 60:
+                    continue
+                nm = list(range(100, 100 - n_cond, -1)) if (g + j) % 2 else ['c%03d' % ((7 * c) % n_cond) for c in range(n_cond)]
+                bd.check(orc_values, dict(seed=j, labels=seq, names=nm, P=n_ch, kind=kind, method=method, opt=opt,
+                                          desc=('list', 'array')[g % 2], descriptor=descriptor, extra=True),
+                         'large,%dx%dx%d' % (n_cond, max_rep, n_ch), function='calc_rdm_' + method)
+    rs = np.random.RandomState(8100)
+    specs = [dict(labels=_random_labels(rs, 7, 2)) for _ in range(6)]
+    for d in (1, 4):
+        specs[d]['labels'] = [c for c in specs[d]['labels'] if c not in (d, d + 1)]
+    for method, opt in GRID + [('mahalanobis', {'noise': 'per-dataset'})]:
+        bd.check(orc_list, dict(seed=1, datasets=specs, names=NAMES['str'], P=9, kind='pos', method=method, opt=opt), 'large,list-of-6',
+                 function='calc_rdm')
+    n_t = 12 if thorough else 8
+    times = [float(v) for v in np.random.RandomState(8200).permutation(n_t)]
+    nb = 4 if thorough else 3
+    for g, (method, opt) in enumerate(movie_grid):
+        for bins in (None, [times[b::nb] for b in range(nb)]):
+            bd.check(orc_movie, dict(seed=g, labels=[1, 0, 2, 0, 1, 3, 3, 2], names=NAMES['str'], P=6, kind='pos', times=times, tdesc='array',
+                                     method=method, opt=opt, descriptor='cond', bins=bins, bins_type='array'),
+                     'large,movie' + (',bins' if bins else ''), function='calc_rdm_movie')
+    bd.done()
+    bds.append(bd)
+
+    # ---- call sequences ---------------------------------------------------------------------------------------------
+    bd = Bounded(run, 'C01/calls', OB_CALLS,
+                 'two datasets A, B of the same shape / labels / descriptors and different content; protocol: call(A) = formula, inputs '
+                 '(measurements, descriptors, precision, bins) unchanged, call(A) again identical, call(B) = formula on B, held results '
+                 'unchanged, caller overwrites a held result -> call(A) = formula, caller overwrites A.measurements with B -> formula on '
+                 'B; single dataset x 11 method/option combinations x with / without descriptor x float / integer data; list of 3 '
+                 'datasets x 10 combinations (shared / per-dataset precision); movie x 5 combinations x bins / none',
+                 function='calc_rdm')
+    seq7 = [1, 0, 2, 0, 1, 1, 3]
+    i = 0
+    for method, opt in GRID:
+        for descriptor in ('cond', None):
+            for kind in ('pos', 'count', 'typed:int16'):
+                i += 1
+                if kind.startswith('typed'):
+                    if _overflows('int16', method, opt, descriptor) or not thorough and i % 2:
+                        continue
+                    if method == 'poisson':
+                        kind = 'typedpos:int16'
+                bd.check(orc_calls, dict(seed=i % 71, form='single', labels=seq7, names=NAMES[('str', 'int-unsorted')[i % 2]], P=4, kind=kind,
+                                         dtype='int16' if kind.startswith('typed') else None, method=method, opt=opt,
+                                         descriptor=descriptor, desc=('list', 'array')[i % 2]),
+                         'single,' + ('descriptor' if descriptor else 'no-descriptor'), function='calc_rdm_' + method)
+    for method, opt in GRID_NO_RM + [('mahalanobis', {'noise': 'per-dataset'}), ('euclidean', {'remove_mean': True})]:
+        for descriptor in ('cond', None):
+            i += 1
+            bd.check(orc_calls, dict(seed=i % 71, form='list', labels=seq7, names=NAMES['str'], P=4, kind=('pos', 'count')[i % 2],
+                                     method=method, opt=opt, descriptor=descriptor, desc='array'),
+                     'list,' + ('descriptor' if descriptor else 'no-descriptor'), function='calc_rdm')
+    for method, opt in [('euclidean', {}), ('correlation', {}), ('mahalanobis', {'noise': 'spd'}), ('poisson', {}),
+                        ('poisson', {'prior': [2.0, 0.5]})]:
+        for descriptor in ('cond', None):
+            for bins in (None, [[0.0, 1.0], [2.0]]):
+                i += 1
+                bd.check(orc_calls, dict(seed=i % 71, form='movie', labels=[1, 0, 2, 0, 1], names=NAMES['str'], P=3, kind='pos',
+                                         method=method, opt=opt, descriptor=descriptor, times=[0.0, 2.0, 1.0], tdesc='array', bins=bins,
+                                         bins_type='array'), 'movie' + (',bins' if bins else ''), function='calc_rdm_movie')
+    bd.done()
+    bds.append(bd)
+
+    # ---- another hash seed ------------------------------------------------------------------------------------------
+    batch = []
+    i = 0
+    for seq in ([1, 0, 2, 0, 1, 1, 3], [2, 0, 1], [0, 1, 1, 2, 0]):
+        for sch in ('str', 'numstr', 'int-unsorted', 'float'):
+            for descriptor in ('cond', None):
+                i += 1
+                method, opt = GRID[i % len(GRID)]
+                case = dict(seed=i, labels=seq, names=NAMES[sch], P=3, kind='pos', method=method, opt=opt, desc=('list', 'array')[i % 2],
+                            descriptor=descriptor, extra=True)
+                batch.append(['C01/values', case])
+                batch.append(['C01/descriptors', case])
+    for a1, a2 in (([0, 1, 2], [2, 1]), ([1, 0], [0, 2]), ([2, 0, 1], [1, 0, 2]), ([1, 2], [2, 0])):
+        for sch in ('str', 'numstr', 'float'):
+            i += 1
+            method, opt = GRID_NO_RM[i % len(GRID_NO_RM)]
+            case = dict(seed=i, datasets=[dict(labels=a1 + a1[:1]), dict(labels=a2[::-1] + a2[:1]), dict(labels=a1[::-1])],
+                        names=NAMES[sch], P=4, kind='pos', method=method, opt=opt, desc=('list', 'array')[i % 2])
+            batch.append(['C01/list', case])
+            batch.append(['C01/list-descriptors', dict(case, method='euclidean', opt={})])
+    batch.append(['C01/list-no-descriptor', dict(seed=1, names=NAMES['int'], P=4, kind='pos', method='euclidean', opt={},
+                                                 datasets=[dict(labels=[0, 1, 2, 3], oid_perm=q) for q in ([0, 1, 2, 3], [3, 2, 1, 0])],
+                                                 desc='array')])
+    for k, (method, opt) in enumerate(movie_grid):
+        mcase = dict(seed=k, labels=[1, 0, 2, 0, 1], names=NAMES['str'], P=3, kind='pos', times=[0.5, -1.0, 2.0], tdesc='array',
+                     method=method, opt=opt, descriptor='cond', bins=[[0.5, 2.0], [-1.0]] if k % 2 else None, bins_type='array')
+        batch.append(['C01/movie', mcase])
+        batch.append(['C01/movie-labels', mcase])
+        batch.append(['C01/movie-list', dict(mcase, bins=None, n_ds=2)])
+    batch.append(['C01/calls', dict(seed=3, form='list', labels=seq7, names=NAMES['str'], P=4, kind='pos', method='euclidean', opt={},
+                                    descriptor='cond', desc='array')])
+    hashseeds = (1, 2, 3, 31337, 4294967295) if thorough else (1, 31337)
+    bd = Bounded(run, 'C01/hashseed', OB_HASH,
+                 'new interpreters with PYTHONHASHSEED in %s (this process runs with %s), each running %d cases of the oracles '
+                 'values / descriptors / list / list-descriptors / list-no-descriptor / movie / movie-labels / movie-list / calls with '
+                 'str, numeric-str, int and float labels' % (list(hashseeds), __import__('os').environ.get('PYTHONHASHSEED', 'unset'),
+                                                            len(batch)), function='calc_rdm')
+    for hs in hashseeds:
+        bd.check(orc_hashseed, dict(hashseed=hs, batch=batch), 'PYTHONHASHSEED=%d' % hs, function='calc_rdm')
+    bd.done()
+    bds.append(bd)
+    return bds
+
+
+def kinds_ok(method, k):
+    kind = ('pos', 'count', 'signed')[k % 3]
+    return kind if _kind_ok(method, kind) else 'pos'
